@@ -33,6 +33,7 @@ def shards(tier, seed):
     nsw = 5 if tier == "quick" else 12
     for i in range(nsw):
         out.append({"kind": "sweep", "part": i, "parts": nsw, "ks": [1, 3] if tier == "quick" else [1, 2, 3, 5]})
+    out.append({"kind": "drop_vs_close", "ks": [1] if tier == "quick" else [1, 2, 3]})
     for sp in ("popen", "socket", "via"):
         out.append({"kind": "real", "spec": sp, "runs": 2 if tier == "quick" else 25})
     return out
@@ -41,7 +42,93 @@ def shards(tier, seed):
 def run_shard(spec):
     if spec["kind"] == "real":
         return run_real(spec)
+    if spec["kind"] == "drop_vs_close":
+        return run_drop_vs_close(spec)
     return run_inproc(spec)
+
+
+def run_drop_vs_close(spec):
+    """One channel is being closed by the peer at the moment its last local reference is dropped - with the receiver thread
+    held at every line of the close handling in turn. Whatever becomes of that channel, the bystander channels get every
+    item, in order, and the gateway goes on receiving."""
+    import gc
+
+    from execnet import gateway_base as gb
+    from vlib import imodel
+    from vlib import pairs
+
+    res = Result()
+    rng = core.rng_for("C02d", spec["tier"], spec["seed"], spec["shard"])
+    pre = imodel.Preempt(core.REPO_SRC)
+    pre.install()
+    M = codec.MSG
+    try:
+        lines = imodel.function_lines(gb.ChannelFactory._local_close, gb.ChannelFactory._no_longer_opened, gb.ChannelFactory._local_receive,
+                                      gb.Channel.__del__)
+        res.info["drop_vs_close_sweep_lines"] = len(lines)
+        targets = [(ln, k, how) for ln in lines for k in spec["ks"] for how in ("CHANNEL_CLOSE", "CHANNEL_CLOSE_ERROR", "CHANNEL_LAST_MESSAGE", "CHANNEL_DATA")]
+        for (fn, ln), k, how in targets:
+            if res.enough():
+                break
+            sp = pairs.ScriptedPeer(tee=False, transport="pipe")
+            try:
+                gw = sp.gw
+                holder = [gw.newchannel()]
+                xid = holder[0].id
+                by = gw.newchannel()
+                seen: list = []
+                by_cb = gw.newchannel()
+                by_cb.setcallback(seen.append)
+                n = 6
+                data = lambda cid, v: codec.frame(M["CHANNEL_DATA"], cid, codec.encode(v, versioned=False))
+                first = b"".join(data(by.id, ("by", i)) + data(by_cb.id, ("cb", i)) for i in range(n))
+                if how == "CHANNEL_CLOSE_ERROR":
+                    ender = codec.frame(M[how], xid, codec.encode("the peer gives up", versioned=False))
+                elif how == "CHANNEL_DATA":
+                    ender = data(xid, "one more item")
+                else:
+                    ender = codec.frame(M[how], xid, b"")
+                second = b"".join(data(by.id, ("by", i)) + data(by_cb.id, ("cb", i)) for i in range(n, 2 * n))
+                import io
+                import sys
+
+                real_stderr, sys.stderr = sys.stderr, io.StringIO()
+                try:
+                    sp.feed(first)
+                    pairs.wait_until(lambda: len(seen) >= n, 10.0)
+                    pre.restart()
+                    pre.set_sweep(fn, ln, k, stall=0.06)
+                    sp.feed(ender)
+                    time.sleep(rng.choice((0.0, 0.01, 0.02, 0.03)))
+                    holder.clear()
+                    gc.collect()
+                    sp.feed(second)
+                    got = []
+                    try:
+                        for _ in range(2 * n):
+                            got.append(by.receive(10))
+                    except BaseException as e:  # noqa
+                        got.append(f"{type(e).__name__}: {e}")
+                    pairs.wait_until(lambda: len(seen) >= 2 * n, 5.0)
+                finally:
+                    pre.off()
+                    sys.stderr = real_stderr
+                if pre.fired:
+                    res.count("drop_vs_close_sweep_fired")
+                res.count("drop_vs_close_runs")
+                res.case(core.h64("drop-vs-close", ln, k, how))
+                label = f"peer sends {how} for a channel whose last reference is dropped meanwhile; receiver held at line {ln} (hit {k})"
+                if got != [("by", i) for i in range(2 * n)]:
+                    res.violation("bystander-items-lost-when-drop-meets-close", f"{label}: bystander received {short(got, 200)}")
+                if seen != [("cb", i) for i in range(2 * n)]:
+                    res.violation("bystander-items-lost-when-drop-meets-close:callback", f"{label}: bystander callback saw {short(seen, 200)}")
+                if not gw.hasreceiver():
+                    res.violation("receiver-thread-died-when-drop-meets-close", label)
+            finally:
+                sp.shutdown(2)
+    finally:
+        pre.uninstall()
+    return res
 
 
 # ---------------------------------------------------------------------------
